@@ -2515,6 +2515,14 @@ def _grid_judge(c: Contract, assoc, sols, par_syms, entries) -> dict:
                             expected.add(math.ceil(vf.real))
                     except Exception:  # noqa: BLE001
                         pass
+                    # ceiling is discontinuous at the integers: a solution that IS an integer N (to 1e-9 relative) is computed by
+                    # the real function in binary64 through its own chain of operations and may come out as N -+ a few ulp, i.e.
+                    # rounded up to N or to N + 1.  Both are "the ceiling of the solution to numerical precision"; away from the
+                    # integers the two values coincide and nothing is relaxed.  (False alarm of the seed sweep, VERIF_SEED=11:
+                    # log(1/8) / log(8) is -0.9999999999999999 in the function's float chain.)
+                    delta = 1e-9 * max(1.0, abs(float(re_)))
+                    expected.add(math.ceil(float(re_) - delta))
+                    expected.add(math.ceil(float(re_) + delta))
                 else:
                     expected.add(abs(complex(v60)))
                     shown.append(f"|solution|={abs(complex(v60))!r}")
